@@ -2023,3 +2023,45 @@ pub fn c11_syscall(base_seed: u64, i: u64, _g: &GenCtx) -> Plan {
 pub fn c12_syscall(base_seed: u64, i: u64, _g: &GenCtx) -> Plan {
     sysfault_plan("C12", "c12-syscall", mix(base_seed ^ 0x5CA2, i), true)
 }
+
+
+/// C18: first use — small programs whose first operations are the process's first calls into the library
+pub fn c18_firstuse(base_seed: u64, i: u64, g: &GenCtx) -> Plan {
+    let seed = mix(base_seed ^ 0xF1157, i);
+    let mut r = Rng::new(seed);
+    let ntasks = 2 + r.usize_below(5);
+    let mut data = Vec::new();
+    let mut slot = 0;
+    let mut tasks = Vec::new();
+    let hammer = r.chance(1, 3);
+    for _ in 0..ntasks {
+        let mut ops = Vec::new();
+        if hammer {
+            // a key-derivation service: many short derivations under a couple of long, per-task contexts
+            let mut ctxs = Vec::new();
+            for _ in 0..2 {
+                data.push(DataSpec::Random { seed: r.next(), len: 66 + r.usize_below(40) });
+                ctxs.push(data.len() - 1);
+            }
+            data.push(DataSpec::Random { seed: r.next(), len: 64 });
+            let di = data.len() - 1;
+            for k in 0..(80 + r.usize_below(80)) {
+                ops.push(Op::OneShot { mode: Mode::Derive { ctx: ctxs[(k / 2) % 2] }, data: di, off: k % 32, len: r.usize_below(32) });
+            }
+            tasks.push(TaskPlan { level: Level::Detect, ops });
+            continue;
+        }
+        // start with something that detects the platform at once
+        let len = r.usize_below(3000);
+        data.push(data_spec(&mut r, len));
+        let di = data.len() - 1;
+        ops.push(Op::OneShot { mode: mode(&mut r, &mut data), data: di, off: 0, len });
+        if r.chance(1, 2) {
+            ops.extend(c_history(&mut r, &mut data, &mut slot, 4 * KIB, false));
+        } else {
+            ops.extend(solo_program(&mut r, &mut data, &mut slot, g));
+        }
+        tasks.push(TaskPlan { level: Level::Detect, ops });
+    }
+    multi("C18", "c18-firstuse", seed, Cfg { pool_width: 1, ..Cfg::default() }, data, tasks, &mut r)
+}
